@@ -78,6 +78,13 @@ func main() {
 			}
 		}
 		os.Exit(rc)
+	case "names-ref":
+		// regenerate the naming reference from the tree under analysis (run on the tree the rules were confirmed on)
+		if err := writeNamesRef(); err != nil {
+			fmt.Println("names-ref:", err)
+			os.Exit(1)
+		}
+		os.Exit(0)
 	case "alpha":
 		ids := os.Args[2:]
 		if len(ids) == 0 {
@@ -275,6 +282,14 @@ func runCheck(id, tier string) int {
 			if m.Verdict == "ALARM" {
 				all = append(all, Obligation{Key: "checker-regression@benign:" + m.ID, Rule: "checker-regression", Status: StIncomplete,
 					Reason: "behaviour-preserving variant " + m.ID + " raises an alarm: " + m.Detail})
+			}
+		}
+		// … and so must the tree with every local variable renamed (alpha-equivalent program)
+		for _, m := range runAlpha(p, "slicelabels", "opaque") {
+			stats["alpha_variants"]++
+			if m.Verdict == "ALARM" {
+				all = append(all, Obligation{Key: "checker-regression@" + m.ID, Rule: "checker-regression", Status: StIncomplete,
+					Reason: "renaming every local variable changes a verdict: " + m.Detail})
 			}
 		}
 	}
